@@ -173,3 +173,13 @@ def _e2e(policy, estimands, name):
 for _p in ("drop", "zero"):
     _e2e(_p, ["turnout"], "turnout")
     _e2e(_p, ["dem", "turnout"], "dem_turnout")
+
+
+# "whichever estimator ... bootstrap": the bootstrap estimator's aggregate table (counted margin of a group = live margin
+# of its attributable units over the predicted two-party turnout of the SAME units) is the C06 unit of the real
+# BootstrapElectionModel.get_aggregate_predictions, registered here as well
+import contracts.C06 as _c06  # noqa: E402,F401
+
+for _u in list(UNITS.get("C06", [])):
+    if _u["name"].startswith("aggregate_predictions."):
+        UNITS.setdefault("C01", []).append(dict(_u, prop="C01", name="bootstrap." + _u["name"]))
